@@ -39,7 +39,18 @@ enum Fail {
     Edge(usize),
     /// a read that returns more bytes than a binary may hold
     HugeRead,
+    /// an I/O builtin called in a host that registers the I/O builtins for their signature only
+    /// (the web worker's registry); index into HOSTLESS_CALLS
+    HostlessIo(usize),
 }
+
+const HOSTLESS_CALLS: [&str; 5] = [
+    "f = [\"/x\" .0, 577, 420] __file_open__, 0",
+    "r = \"host\" .0 __dns_resolve__, 0",
+    "l = [8080, 16] __tcp_listen__, 0",
+    "s = [\"/x\" .0 __filesystem_stat__], 0",
+    "d = \"/\" .0 __directory_read__, 0",
+];
 
 /// Out-of-domain calls of pure builtins (boundary integers, empty / unaligned / sliced binaries): each
 /// must end the calling process with a runtime error, never with a panic of its worker.
@@ -94,6 +105,7 @@ fn victim_def(f: Fail, spin: u32, receives: bool) -> (String, bool) {
         Fail::FilterSend => ("me = &., ! [#'int { =q, 1 me, Ok }]".to_string(), false),
         Fail::FilterSelect => ("! [#'int { =q, z = ! [5], Ok }]".to_string(), false),
         Fail::Edge(k) => (format!("x = [{}], 0", EDGE_CALLS[k % EDGE_CALLS.len()]), false),
+        Fail::HostlessIo(k) => (HOSTLESS_CALLS[k % HOSTLESS_CALLS.len()].to_string(), false),
         Fail::HugeRead => ("f = [\"/huge\" .0, 0, 0] __file_open__, d = [f, 0, 20000000] __file_read__, d __binary_length__".to_string(), true),
     };
     (format!("victim = #'int {{ =n, {pre}w = [{spin}, 0] spin, {op} }}"), io)
@@ -125,6 +137,7 @@ impl Property for C15 {
         // the failure is the scenario's own; no additional random backend faults
         let mut c = super::default_cfg(rng, scn);
         c.faults = scn.fixed_faults.clone();
+        c.io_signatures_only = scn.family == "c15-HostlessIo";
         c
     }
     fn generate(&self, rng: &mut Rng, _tier: Tier) -> Scenario {
@@ -148,6 +161,8 @@ impl Property for C15 {
         ];
         let f = if rng.chance(1, 5) {
             Fail::Edge(rng.usize(EDGE_CALLS.len()))
+        } else if rng.chance(1, 30) {
+            Fail::HostlessIo(rng.usize(HOSTLESS_CALLS.len()))
         } else if rng.chance(1, 60) {
             // (rare: every run moves 16 MiB through the transport and the event log)
             Fail::HugeRead
@@ -263,7 +278,7 @@ impl Property for C15 {
         // arrives (after a timed-out await, or inside a receive filter); outcome not judged
         let mut io_awaiters = false;
         // (not next to an injected-write victim: the fault plan counts backend requests)
-        if !matches!(f, Fail::InjectedWrite(_)) && rng.chance(1, 3) {
+        if !matches!(f, Fail::InjectedWrite(_) | Fail::HostlessIo(_)) && rng.chance(1, 3) {
             io_awaiters = true;
             if rng.chance(1, 2) {
                 body.push("r2 = &v @rel2".to_string());
